@@ -119,6 +119,7 @@ structure Cfg where
   bufsize : Nat := 65536
   https : Bool := false            -- TLS: after the TCP connect the handshake runs inside `create_connection`
   closeDelim : Bool := false       -- response body delimited by connection close (no Content-Length, not chunked)
+  c0 : Nat := 0                    -- `Task.cancelling()` of the calling task when it starts the request
 deriving Repr
 
 /-- `ClientTimeout.__post_init__`: `total = max(total, connect or 0, sock_read or 0, sock_connect or 0)`
@@ -153,7 +154,10 @@ structure St where
   now : Nat := 0
   seq : Nat := 0
   pc : Pc := .idle
-  cancelling : Nat := 0
+  cancelling : Nat := 0             -- `Task.cancelling()` of the calling task (may start > 0: earlier swallowed cancels)
+  tcBase : Nat := 0                 -- `TimerContext._cancelling`
+  connBase : Nat := 0               -- `Timeout._cancelling` of `ceil_timeout(connect)`
+  sockBase : Nat := 0               -- `Timeout._cancelling` of `ceil_timeout(sock_connect)`
   mustCancel : Bool := false
   wake : Option Wake := none
   tcCancelled : Bool := false
@@ -210,27 +214,33 @@ def uncancel (s : St) : St :=
   else if s.cancelling = 1 then { s with cancelling := 0, mustCancel := false }
   else { s with cancelling := s.cancelling - 1 }
 
-/-- `TimerContext.__exit__` for exception `e` (the `_cancelling` recorded at `__enter__` is 0) -/
+/-- `TimerContext.__exit__` for exception `e`: `if enter_task.uncancel() > self._cancelling: return None`
+(let the foreign cancellation through) `else: raise asyncio.TimeoutError`; `_cancelling` (`tcBase`) is
+the single attribute overwritten by every `__enter__` with `task.cancelling()` -/
 def tcExit (s : St) (e : Exc) : St × Exc :=
   if e = .cancelled ∧ s.tcCancelled then
     let s := uncancel s
-    if s.cancelling > 0 then (s, .cancelled) else (s, .timeout)
+    if s.cancelling > s.tcBase then (s, .cancelled) else (s, .timeout)
   else (s, e)
 
+/-- `TimerContext.__enter__`: `self._cancelling = task.cancelling()` -/
+def tcEnter (s : St) : St := { s with tcBase := s.cancelling }
+
 /-- `asyncio.timeouts.Timeout.__aexit__` given the context state -/
-def ctxExitCore (st : CtxSt) (s : St) (e : Exc) : St × Exc :=
+def ctxExitCore (st : CtxSt) (base : Nat) (s : St) (e : Exc) : St × Exc :=
   match st with
   | .expiring =>
+    -- `if self._task.uncancel() <= self._cancelling and exc_type is CancelledError: raise TimeoutError`
     let s := uncancel s
-    if s.cancelling = 0 ∧ e = .cancelled then (s, .timeout) else (s, e)
+    if s.cancelling ≤ base ∧ e = .cancelled then (s, .timeout) else (s, e)
   | _ => (s, e)
 
 def connExit (s : St) (e : Exc) : St × Exc :=
-  let r := ctxExitCore s.connCtx s e
+  let r := ctxExitCore s.connCtx s.connBase s e
   ({ r.1 with connCtx := .off, connT := none }, r.2)
 
 def sockExit (s : St) (e : Exc) : St × Exc :=
-  let r := ctxExitCore s.sockCtx s e
+  let r := ctxExitCore s.sockCtx s.sockBase s e
   ({ r.1 with sockCtx := .off, sockT := none }, r.2)
 
 /-! ## read timeout, pause / resume -/
@@ -302,9 +312,10 @@ def finish (s : St) (o : Outcome) : St :=
 /-- one connect attempt: enter `ceil_timeout(sock_connect)` and await the connection -/
 def attemptConn (cfg : Cfg) (s : St) : St :=
   let s := match cfg.sockConnect with
-    | some d => if d = 0 then { s with sockCtx := .entered, sockT := none }
-                else { s with sockCtx := .entered, sockT := some (ctxDeadline s.now d, s.seq), seq := s.seq + 1 }
-    | none => { s with sockCtx := .entered, sockT := none }
+    | some d => if d = 0 then { s with sockCtx := .entered, sockT := none, sockBase := s.cancelling }
+                else { s with sockCtx := .entered, sockT := some (ctxDeadline s.now d, s.seq), seq := s.seq + 1,
+                              sockBase := s.cancelling }
+    | none => { s with sockCtx := .entered, sockT := none, sockBase := s.cancelling }
   { s with pc := .connecting, wake := none, tls := false }
 
 /-- placeholder acquired; `_create_connection` up to its first suspension -/
@@ -322,9 +333,10 @@ def armStart (cfg : Cfg) (s : St) : St :=
     | some d => if d = 0 then s else { s with totalT := some (totalDeadline s.now d, s.seq), seq := s.seq + 1 }
     | none => s
   match cfg.connect with
-    | some d => if d = 0 then { s with connCtx := .entered }
-                else { s with connCtx := .entered, connT := some (ctxDeadline s.now d, s.seq), seq := s.seq + 1 }
-    | none => { s with connCtx := .entered }
+    | some d => if d = 0 then { s with connCtx := .entered, connBase := s.cancelling, tcBase := s.cancelling }
+                else { s with connCtx := .entered, connT := some (ctxDeadline s.now d, s.seq), seq := s.seq + 1,
+                              connBase := s.cancelling, tcBase := s.cancelling }
+    | none => { s with connCtx := .entered, connBase := s.cancelling, tcBase := s.cancelling }
 
 /-- `ClientSession._request` up to the first suspension -/
 def startR (cfg : Cfg) (s : St) : St :=
@@ -345,7 +357,7 @@ def readBody (cfg : Cfg) (s : St) : St × Option Exc :=
   else
   let s := if s.buffered > 0 then consume cfg s else s
   if s.eof then (finish (releaseConn cfg s) .ok, none)
-  else ({ s with pc := .body, wake := none }, none)
+  else ({ s with pc := .body, wake := none, tcBase := s.cancelling }, none)
 
 /-- `ClientResponse.start` resumed with the message; rest of `_request`; user code up to the next suspension -/
 def afterHeaders (cfg : Cfg) (s : St) : St × Option Exc :=
@@ -361,7 +373,7 @@ def afterConnect (cfg : Cfg) (s : St) : St :=
   let s := (connExit s .timeout).1
   let s := { s with tr := .open, slot := .proto }
   let s := if cfg.wstall then { s with wr := .parked } else reschedRead cfg s
-  { s with pc := .headers, wake := none }
+  { s with pc := .headers, wake := none, tcBase := s.cancelling }
 
 /-! ## exception paths -/
 
@@ -609,7 +621,7 @@ def run (cfg : Cfg) (s : St) : List (Nat × List Ev) → St
   | [] => s
   | (t, evs) :: rest => run cfg (instant cfg s t evs) rest
 
-def init (hasCo : Bool) : St := { cpc := if hasCo then .idle else .none }
+def init (hasCo : Bool) (c0 : Nat := 0) : St := { cpc := if hasCo then .idle else .none, cancelling := c0 }
 
 /-- instant at which the harness observes the residue (beyond every timeout and scripted event) -/
 def tObs : Nat := 400000
